@@ -21,6 +21,7 @@ theorem step_refused (c : Cfg) (s : St) (e : Ev) (h : e.removes = false) :
   | nodeDone n => exact ⟨rfl, rfl, rfl, rfl⟩
   | nodeFailed n => exact ⟨rfl, rfl, rfl, rfl⟩
   | nodeReset n => exact ⟨rfl, rfl, rfl, rfl⟩
+  | restart => exact ⟨rfl, rfl, rfl, rfl⟩
   | removeEmpty =>
     have f := foldRemove_frame (fun a => (c.namesOf a).isEmpty) s.dom s
     exact ⟨f.disk, f.removed, f.report, f.final⟩
